@@ -9,12 +9,15 @@ pub mod rolling_logger;
 pub type LoggerLevel = log::Level;
 
 pub fn get_log_header(level: LoggerLevel) -> String {
-    format!(
+    // the sub-second part of the time stamp is printed without its trailing zeros, so the
+    // text can be shorter than the 34 (ASCII) characters the header is cut to
+    let mut header = format!(
         "{} [{}]    ",
         misc_helpers::get_date_time_string_with_milliseconds(),
         level
-    )[..34]
-        .to_string()
+    );
+    header.truncate(34);
+    header
 }
 
 #[cfg(test)]
